@@ -55,3 +55,20 @@ Proof.
   now rewrite (engine_output_tokens _ _ _ _ _ _ _ _ _ _ _ _ _ _ H H0 H2).
 Qed.
 Print Assumptions C03_engine_outputs_same_tokens.
+
+(** Every output line is indented by a multiple of the indent setting: every
+    line break the model of the layout engine emits - for ANY value of the
+    model universe (strings and their multi-line strategies included), at every
+    width, ribbon, depth, max_seq_len - carries an indentation divisible by the
+    indent.  (Every nest offset the printers use is ctx.indent, they never use
+    align, the string printer's evaluator is handed ctx.indent: NestDocs.v;
+    layouts only add nest offsets: IndentMult.v; the engine only emits layouts:
+    C04_membership.) *)
+From PP Require Import IndentMult NestDocs IndentE2E.
+Theorem C03_indent_multiple :
+  forall (printable sp wd lb : N -> bool) (fuel ff : nat) (v : pyval) (indent width rw : Z)
+         (depth : option Z) (maxlen : Z) (sort : bool) (out : list sdoc),
+    sdocs_model printable sp wd lb fuel ff v indent width rw depth maxlen sort = Some out ->
+    forall j, In (SLine j) out -> (indent | j)%Z.
+Proof. exact indent_multiple. Qed.
+Print Assumptions C03_indent_multiple.
